@@ -710,5 +710,78 @@ theorem disableEom_step {s : SeqState} {n : ChName} {corr : Bool}
   · intro m; exact (h3.modeOf m).trans (i2 m)
   · exact h2.trans (congrArg (· ++ [Op.disableEom n corr]) i3)
 
+theorem modifyEom_step {s : SeqState} {n : ChName} {e : EomIn}
+    (hok : (stepRaw s (.modifyEom n e)).err = none) :
+    SameX s (stepRaw s (.modifyEom n e)).st ∧
+    (∀ m, modeOf (stepRaw s (.modifyEom n e)).st m
+        = if m = n then (modeOf s m).map (fun _ => true) else modeOf s m) ∧
+    ∃ e', (stepRaw s (.modifyEom n e)).st.calls = s.calls ++ [.modifyEom n e'] := by
+  simp only [stepRaw] at hok ⊢
+  by_cases g0 : s.measured.isSome = true
+  · rw [if_pos g0] at hok; simp [fail] at hok
+  · rw [if_neg g0] at hok ⊢
+    cases hv : s.validateChannel n false with
+    | error er => rw [hv] at hok; simp [fail] at hok
+    | ok c =>
+      rw [hv] at hok
+      simp only at hok ⊢
+      by_cases g1 : (!c.inEomMode) = true
+      · rw [if_pos g1] at hok; simp [fail] at hok
+      · rw [if_neg g1] at hok ⊢
+        cases hp : processEomParams c e with
+        | error er => rw [hp] at hok; simp [fail] at hok
+        | ok detOff =>
+          rw [hp] at hok
+          simp only at hok ⊢
+          unfold modifyEomCommit at hok ⊢
+          -- first half: close the running block
+          obtain ⟨hx, hm⟩ := withChan_sets (s := s) (n := n) (b := false)
+            (f := fun c => disableEom s.dev.maxSeqDur c true) (fun c => disableEom_sets _ c _)
+          have hfrw := Fr_withChan s n (fun c => disableEom s.dev.maxSeqDur c true)
+          unfold Raw.bind at hok ⊢
+          cases he : (s.withChan n fun c => disableEom s.dev.maxSeqDur c true).err with
+          | some er => rw [he] at hok; simp only at hok; rw [he] at hok; cases hok
+          | none =>
+            rw [he] at hok
+            simp only at hok ⊢
+            generalize hs1 : (s.withChan n fun c => disableEom s.dev.maxSeqDur c true).st = s1 at *
+            cases hg : s1.getChan n with
+            | none => rw [hg] at hok; simp [fail] at hok
+            | some c1 =>
+              rw [hg] at hok
+              simp only at hok ⊢
+              have := eom_commit (s := s1) (n := n) (b := true)
+                (f := fun c => enableEom s.dev.maxSeqDur c e.amp e.detOn detOff false true)
+                (op' := .modifyEom n { e with optimal := detOff })
+                (rOf := fun s2 =>
+                  if e.corr then
+                    match (s2.getChan n).bind (·.slots.getLast?) with
+                    | some buf =>
+                      s2.phaseShift (-((lastEomPulseDrift c1).calc buf.ti +
+                        ({ rate := -detOff, ti := c1.getDuration false } : Drift).calc buf.tf)) buf.targets c.cfg.basis
+                    | none => fail s2 .noTarget
+                  else done s2)
+                (hf := fun c => enableEom_sets _ c _ _ _ _ _) (hr := ?_) (hfr := ?_) hok
+              · obtain ⟨t1, t2, t3⟩ := this
+                refine ⟨SameX.trans hx t1, ?_, ⟨{ e with optimal := detOff }, ?_⟩⟩
+                · intro m
+                  have := t2 m
+                  rw [hm he m] at this
+                  refine this.trans ?_
+                  by_cases hmn : m = n
+                  · simp [hmn, Option.map_map]
+                  · simp [hmn]
+                · exact t3.trans (by rw [hfrw.1])
+              · intro s2
+                simp only
+                repeat' split
+                all_goals first
+                  | exact SameR_phaseShift _ _ _ _ | exact SameR_fail _ _ | exact SameR_done (Same.rfl' _)
+              · intro s2
+                simp only
+                repeat' split
+                all_goals first
+                  | exact Fr_phaseShift _ _ _ _ | exact Fr_fail _ _ | exact Fr_done ⟨rfl, rfl, rfl⟩
+
 end Param
 end Pulser
